@@ -69,7 +69,25 @@ def run_paths(ctx, fn, env0=None, this_names=("this",), include_exc=False, limit
     results = []
     skip = () if include_exc else ("exc",)
 
-    folder = (lambda node: ctx.folder.ev(node, mod)) if (fold and mod is not None) else None
+    folder = None
+    if fold and mod is not None:
+        # constant folding sees through single-definition local aliases (`akai = CharFormat.AKAI; T[akai]`)
+        from ..rules.sem import single_defs, _Inline
+        import copy as _copy
+        _defs = single_defs(fn)
+
+        _blocked = {a.arg for a in fn.args.posonlyargs + fn.args.args + fn.args.kwonlyargs}
+        for _n in ast.walk(fn):
+            if isinstance(_n, ast.Name) and isinstance(_n.ctx, ast.Store):
+                _blocked.add(_n.id)
+        _blocked -= set(_defs)
+
+        def folder(node):
+            if any(isinstance(n, ast.Name) and n.id in _blocked for n in ast.walk(node)):
+                raise ValueError("mentions a variable")
+            return ctx.folder.ev(_Inline(_defs).visit(_copy.deepcopy(node)), mod)
+
+        folder.smart = True
 
     def mk_eval(env):
         return Evaluator(env=env, const_of=const_of, func_of=func_of, this_names=this_names, fold=folder)
